@@ -77,7 +77,7 @@ def main():
         res["checks"] = {}
         for c in checks:
             e2 = {"VERIF_REPO": wt, "VERIF_EVIDENCE_DIR": cdir + "/evidence", "VERIF_REPLAY_DIR": cdir + "/replays"}
-            code, wall = run(["/verif/check", c, "quick"], "/verif", 1500, e2, cdir + f"/confirm_check_{c}.log")
+            code, wall = run([os.environ.get("CHECK_BIN", "/verif/check"), c, "quick"], os.path.dirname(os.environ.get("CHECK_BIN", "/verif/check")), 1500, e2, cdir + f"/confirm_check_{c}.log")
             first = ""
             for line in open(cdir + f"/confirm_check_{c}.log"):
                 if line.startswith("violation "):
